@@ -170,6 +170,9 @@ func (g *exprGen) Gen(typ string, depth int, wide bool) []TExpr {
 					r := subRef()
 					return new(builder).s(`[for x in [`).e(r).s(`, `).e(subRef()).s(`, `).e(r).s(`] : "c"]`).done("for-over-repeated-references")
 				}(),
+				// collection literals reached through a conditional or parentheses (not as the value itself)
+				new(builder).e(subRef()).s(` ? [`).e(subRef()).s(`] : [`).e(subRef()).s(`, "x"]`).done("conditional-of-tuples"),
+				new(builder).s(`([`).e(subRef()).s(`, `).e(subRef()).s(`])`).done("parenthesised-tuple"),
 				func() TExpr {
 					it := TExpr{Text: "v", Refs: []Ref{{Addr: "v", Start: 0, End: 1, Iterator: true}}}
 					return new(builder).s(`[for v in `).e(subRef()).s(` : `).e(it).s(` if `).e(it).s(` != `).e(subRef()).s(`]`).done("for-list")
